@@ -188,6 +188,66 @@ def make_cells(gi, tier):
     cells.append(Cell("%s/Adhom" % nm, st.fixed_dictionaries({"X": elem, "Y": elem}), check_adhom,
                       lambda c: nt_g(c["X"]) and nt_g(c["Y"]), quick=150, thorough=3000,
                       build=lambda: (gi.fn("Ad").build(), gi.fn("prod").build(), gi.fn("inv").build())))
+    # ---- element objects reused across several operations (in-place mutation / aliasing shows here)
+    def mk_reuse():
+        x, y, z = gi._x("x"), gi._x("y"), gi._x("z")
+        X, Y, Z = gi.alg.elem(x), gi.alg.elem(y), gi.alg.elem(z)
+        b1 = (X * Y).param
+        b2 = (Y * X).param
+        jac = (X * (Y * Z)).param + (Y * (Z * X)).param + (Z * (X * Y)).param
+        adx_after = X.ad() @ Y.param  # X used again after it was an operand of several brackets
+        b3 = (X * Y).param
+        return [x, y, z], [cy.ca.densify(b1), cy.ca.densify(b2), cy.ca.densify(jac), cy.ca.densify(adx_after), cy.ca.densify(b3),
+                           cy.ca.densify(X.param), cy.ca.densify(Y.param)]
+
+    reuse = cy.Fn("%s_reuse" % nm.replace("*", "x").replace("(", "_").replace(")", ""), mk_reuse)
+
+    def check_reuse(case):
+        x, y, z = enca(case["x"]), enca(case["y"]), enca(case["z"])
+        b1, b2, jac, adxy, b3, xp, yp = [cy.vec(o) for o in reuse(x, y, z)]
+        A, B = L.hat(gi, x), L.hat(gi, y)
+        want, res = L.vee(gi, A @ B - B @ A)
+        sc = (1 + float(np.max(np.abs(x)))) * (1 + float(np.max(np.abs(y))))
+        sc3 = sc * (1 + float(np.max(np.abs(z))))
+        L.close(xp, x, "%s: element x changed after being used as a bracket operand" % nm, atol=0, rtol=0, scale=0.0)
+        L.close(yp, y, "%s: element y changed after being used as a bracket operand" % nm, atol=0, rtol=0, scale=0.0)
+        L.close(b1, want, "%s: [x,y] (objects reused) vs commutator" % nm, scale=sc)
+        L.close(b2, -want, "%s: [y,x] (objects reused) vs -commutator" % nm, scale=sc)
+        L.close(b3, want, "%s: [x,y] evaluated a second time on the same objects" % nm, scale=sc)
+        L.close(adxy, want, "%s: ad_x y after x was used in brackets" % nm, scale=sc)
+        L.close(jac, np.zeros_like(jac), "%s: Jacobi identity on reused element objects" % nm, scale=sc3)
+
+    cells.append(Cell("%s/object_reuse" % nm, st.fixed_dictionaries({"x": algs, "y": algs, "z": algs}), check_reuse,
+                      lambda c: nt_a(c["x"]) and nt_a(c["y"]), quick=100, thorough=2000, build=lambda: reuse.build()))
+
+    # ---- the same API called on numeric (DM) parameters, in sequences with nearly identical inputs
+    @st.composite
+    def num_seq(draw):
+        X = draw(elem)
+        xs = draw(algs)
+        pert = [draw(st.sampled_from([0.0, 1e-9, 1e-7, -1e-6, 1e-5])) for _ in range(draw(st.integers(1, 3)))]
+        return {"X": X, "x": xs, "pert": pert, "d": draw(gens.vector(gi.n, scales=(0,), allow_zero=False)),
+                "da": draw(gens.vector(gi.na, scales=(0,), allow_zero=False))}
+
+    def check_numeric(case):
+        X0 = encg(case["X"])
+        require(L.euler_input_ok(gi, X0))
+        x0 = enca(case["x"])
+        for eps in [0.0] + list(case["pert"]):
+            X = X0 * (1 + eps * np.array(case["d"]))
+            x = x0 + eps * np.array(case["da"])
+            for key, arg in (("Ad", X), ("ad", x)):
+                try:
+                    want = gi.fn(key)(arg)
+                except Exception as e:
+                    if type(e).__name__ == "NotOffered":
+                        continue
+                    raise
+                got = gi.numeric(key, arg)
+                L.close(got, want, "%s: %s called on numeric parameters (after earlier numeric calls) vs the symbolic function" % (nm, key),
+                        atol=1e-12, rtol=1e-12, scale=float(np.max(np.abs(want))), arg=np.asarray(arg).tolist(), eps=eps)
+
+    cells.append(Cell("%s/numeric_mode" % nm, num_seq(), check_numeric, lambda c: nt_g(c["X"]), quick=40, thorough=600))
     return cells
 
 
